@@ -133,6 +133,9 @@ func init() {
 			return e.NewPlugin("fallback", "fallback", &fallback.Args{Primary: "fwd_main", Secondary: "seq_secondary"})
 		}})
 	reg(&Inst{Name: "forward", Plugin: "forward", UsesUp: true, Rules: []sequence.RuleArgs{rule("fakefwd")}})
+	// the other common way to configure a cache: no `accept` behind it, the forward guarded instead
+	reg(&Inst{Name: "cache_plain", Plugin: "cache", Stateful: true, Rules: []sequence.RuleArgs{rule("cache 1024")}})
+	reg(&Inst{Name: "forward_if_none", Plugin: "forward", UsesUp: true, Rules: []sequence.RuleArgs{rule("fakefwd", "!has_resp")}})
 
 	// EDNS0 related instances (C15).
 	reg(&Inst{Name: "ecs_forward", Plugin: "ecs", FwdECS: true,
